@@ -313,7 +313,7 @@ let op_splice args =
      | None -> out := !out @ [-5]; positions := Array.append !positions [| None |]
      | Some sp ->
        let (items, k) = sp_harvest stamp charvest sp (nat_of_int q) (nat_of_int start) in
-       out := !out @ (List.length items :: List.map fst items) @ [match k with None -> 0 | Some _ -> 1];
+       out := !out @ (List.length items :: List.map fst items) @ [(match k with None -> 0 | Some _ -> 1); 0];
        positions := Array.append !positions [| k |])
   done;
   !out
@@ -556,7 +556,7 @@ let str_of_text t = String.concat "," (List.map (fun c -> string_of_int (int_of_
 let not_found_str = "HTTP/1.0 404 Not Found\r\nContent-Type: text/plain\r\n\r\nnot found"
 let not_found_bytes = List.map (fun c -> n_of_int (Char.code c)) (List.init (String.length not_found_str) (String.get not_found_str))
 let cold_outs : int list list ref = ref []
-type netop = NFetch of int | NUnknown of jv * int | NListing of int * int * int | NWebfinger of int list | NPaging of int * int list
+type netop = NFetch of int | NUnknown of jv * int | NListing of int * int * int | NWebfinger of int list | NPaging of int * int list | NFeed of int list * (int * int) list * int list
 type netcase = { cap : int; base : int; universe : n list array; world : (int * n list * int) list; modes : int list; ops : netop list }
 let take_netcase args =
   let (cap, r) = take1 args in
@@ -576,6 +576,12 @@ let take_netcase args =
                     else if k = 2 || k = 3 then let (ui, r) = take1 r in let (cnt, r) = take1 r in (NListing (k, ui, cnt), r)
                     else if k = 4 then let (bs, r) = take_list r in (NWebfinger bs, r)
                     else if k = 5 then let (ui, r) = take1 r in let (am, r) = take_list r in (NPaging (ui, am), r)
+                    else if k = 6 then
+                      let (ins, r) = take_list r in
+                      let (nt, r) = take1 r in
+                      let rec tb n r = if n = 0 then ([], r) else let (t, r) = take1 r in let (st, r) = take1 r in let (rest, r) = tb (n - 1) r in ((t, st) :: rest, r) in
+                      let (table, r) = tb nt r in
+                      let (am, r) = take_list r in (NFeed (ins, table, am), r)
                     else let (v, r) = take_jv r in let (si, r) = take1 r in (NUnknown (v, si), r)) in
       let (rest, r) = ops (n - 1) r in (o :: rest, r) in
   let (ops, _) = ops nops r in
@@ -705,6 +711,32 @@ let run_net args lib =
          | None -> out := !out @ [[1]]
          | Some vs -> out := !out @ [0 :: 4 :: List.length vs :: List.concat_map (fun v -> [1; v]) vs @ [0]]);
         cold := !cold @ [[-1]]
+      | NFeed (ins, table, amounts) ->
+        (* splicer.NewSplicer(inputs) + Harvest through the continuation: Splicer.sp_harvest over sources that are remote
+           collections (Paging.load_page / Collection.harvest); an input that is not a collection has no page *)
+        let txt s = List.map (fun c -> n_of_int (Char.code c)) (List.init (String.length s) (String.get s)) in
+        let tag_of e = (match e with
+            | JObj o when not (kind_in post_kinds o) -> -1
+            | JObj o -> (match get_string o (txt "name") with
+                | Present (t :: digits) when int_of_n t = 116 && digits <> [] && List.for_all (fun d -> int_of_n d >= 48 && int_of_n d <= 57) digits ->
+                  List.fold_left (fun a d -> a * 10 + (int_of_n d - 48)) 0 digits
+                | _ -> -9)
+            | _ -> -1) in
+        let stamp tag = z_of_int (try List.assoc tag table with Not_found -> 0) in
+        let lp = load_page w is_https resolve cap parse_ref url_parse host_of in
+        let charvest pg q b =
+          let (d, k) = harvest lp (harvest_fuel q) pg q b O in
+          let items = List.filter_map (function DItem (e, _) -> Some (tag_of e) | _ -> Some (-1)) d in
+          (match k with Some (pg', b') -> ((items, Some pg'), b') | None -> ((items, None), O)) in
+        let sp0 = List.map (fun ui -> { s_buf = []; s_page = lp (JStr nc.universe.(ui), None); s_base = O }) ins in
+        let rec go sp start amounts = (match amounts, sp with
+            | [], _ | _, None -> []
+            | a :: rest, Some sp ->
+              let (items, k) = sp_harvest stamp charvest sp (nat_of_int a) (nat_of_int start) in
+              (List.length items :: items) @ [(match k with Some _ -> 1 | None -> 0); 0] @ go k 0 rest) in
+        let vals = go (Some sp0) 0 amounts in
+        out := !out @ [0 :: 3 :: List.length vals :: List.map (fun v -> v + 10) vals @ [0]];
+        cold := !cold @ [[-1]]
       | NPaging (ui, amounts) ->
         (* pub.New(url) as a collection + repeated Harvest: Paging.remote_requests (loads from a cold cache; this op's requests are
            not part of the compared log) *)
@@ -767,7 +799,7 @@ let orc_net args lib impl =
             let (v, r3) = take_jv r2 in
             (match op with
              | NFetch _ -> let (src, r4) = take_text r3 in proj := !proj @ [0 :: put_jv v @ put_text src]; r := r4
-             | NListing _ | NUnknown _ | NWebfinger _ | NPaging _ ->
+             | NListing _ | NUnknown _ | NWebfinger _ | NPaging _ | NFeed _ ->
                let (has, r4) = take1 r3 in
                if has = 0 then (proj := !proj @ [0 :: put_jv v @ [0]]; r := r4)
                else let (id, r5) = take_text r4 in (proj := !proj @ [0 :: put_jv v @ (1 :: put_text id)]; r := r5))
